@@ -94,11 +94,18 @@ class Resolver:
                     else:
                         self._bind(n.target.id, "other", n)
             elif isinstance(n, ast.AugAssign):
-                b = n.target
-                while isinstance(b, (ast.Subscript, ast.Attribute)):
-                    b = b.value
-                if isinstance(b, ast.Name):
-                    self.impure.add(b.id)
+                if isinstance(n.target, ast.Name):
+                    # value-wise `x op= v` is the re-binding x = x op v (aliasing is the ownership engine's business)
+                    v = ast.BinOp(left=ast.Name(id=n.target.id, ctx=ast.Load()), op=n.op, right=n.value)
+                    ast.copy_location(v, n)
+                    ast.copy_location(v.left, n)
+                    self._bind(n.target.id, "assign", n, v)
+                else:
+                    b = n.target
+                    while isinstance(b, (ast.Subscript, ast.Attribute)):
+                        b = b.value
+                    if isinstance(b, ast.Name):
+                        self.impure.add(b.id)
             elif isinstance(n, (ast.For, ast.AsyncFor)):
                 for x in ast.walk(n.target):
                     if isinstance(x, ast.Name):
